@@ -247,9 +247,15 @@ func verifECS(fam int) *dns.EDNS0_SUBNET {
 		b := nd.Bytes(4)
 		e.Address = net.IPv4(b[0], b[1], b[2], b[3])
 	case 2:
-		e.SourceNetmask = nd.Byte()
-		nd.Assume(nd.And(e.SourceNetmask <= 128, e.SourceScope <= 128))
-		e.Address = net.IP(nd.Bytes(16))
+		// bound: the source prefix length comes from a pool around the boundaries that matter
+		// (0, byte boundaries, the declared /32, the default scope 48, full length); only the
+		// first four address bytes are symbolic (the rest is zero)
+		pool := []uint8{0, 31, 32, 33, 48, 64, 128}
+		e.SourceNetmask = pool[nd.Choice(len(pool))]
+		nd.Assume(e.SourceScope <= 128)
+		a := make(net.IP, 16)
+		copy(a, nd.Bytes(4))
+		e.Address = a
 	}
 	return e
 }
